@@ -866,7 +866,13 @@ fn audit() -> serde_json::Value {
        "covered": "the full value (crdt, vector clock, expiry, stamp, rf) AND every public accessor of every operand and result (A lines: get, is_tombstone, crdt_type, is_lww, is_hash, lww, get_hash, hash_get, get_replica_count, value, is_empty, contains, len, get_tags, VectorClock::get, get_replication_factor); the three laws are evaluated on the values and once more through the accessors; Lean: obs_all_idem / comm / assoc_partial",
        "open": ""},
       {"class": 10, "topic": "finding signatures", "covered": "C07:assoc:cross-kind:crdt (kinds mixed, field 'crdt' differs) and C07:comm:deprecated-crdt-merge:cross-kind (only across kinds: the same-kind variant is a violation) are disjoint from every other failure of the laws", "open": ""},
-      {"class": 11, "topic": "harness fragility", "covered": "the function list comes from the source the binary was built against; a failed or implausibly short scan is a violation; a value the mirror cannot read is a named case, not a panic", "open": ""}
+      {"class": 11, "topic": "harness fragility", "covered": "the function list comes from the source the binary was built against; a failed or implausibly short scan is a violation; a value the mirror cannot read is a named case, not a panic", "open": ""},
+      {"class": "session-4", "topic": "what session 4 added",
+       "covered": "observations: every value of the reachable pools carries its key; pairs of ONE key (deltas, stored values, merges of those — what C07.Reach ranges over, over-sampled) must be tie-consistent (C07:reach:tie-inconsistent:*; theorem reachable_tie_consistent) and commute with no exclusion; comparisons: counts / Lamport times / expiries / rf at integer-width boundaries (2^31, 2^32±1, 2^53, 2^63, u64::MAX), both operands often on the same edge; capacity: hashes with 33..40 fields",
+       "open": "counts above 2^53 (value() sums would overflow u64 under overflow-checks: Nat model)"},
+      {"class": "session-4-selftest", "topic": "mutations / harmless rewrites tried on a private clone",
+       "covered": "MISSED BEFORE, caught now: GCounter::merge comparing counts truncated to 32 bits (C07:mutator:not-inflationary on 4294967295 → 4294967297), Hash arm of try_merge returning `other` when it has more than 32 fields (C07:assoc / comm:same-kind:crdt). Caught before and now: rf merge keeps self's (C07:comm:*:rf), a merged tombstone drops the expiry (C07:idem:lww:expiry), SET in causal mode does not tick (new: C07:reach:tie-inconsistent:same-kind). Harmless rewrites: quiet before and after",
+       "open": ""}
     ])
 }
 
